@@ -558,7 +558,7 @@ def exhaustive_sequences(ck, si, alphabet, depth, depth_extra, light=False):
         seqs += [(a, e) for a in (alphabet if quick else pool) for e in EXTRA] + [(e, a) for e in EXTRA for a in alphabet]
     if depth_extra >= 3:
         rng = random.Random(f'{ck.seed}:c13x:{si}')
-        seqs += [tuple(rng.choice(pool) for _ in range(3)) for _ in range(300 if quick else 3000)]
+        seqs += [tuple(rng.choice(pool) for _ in range(3)) for _ in range(300 if quick else 1500)]
     return list(dict.fromkeys(seqs))
 
 
@@ -1395,7 +1395,7 @@ def run(ck):
         'fix_stereo is modelled only through its cache effect; stereo labels after edits, ring marks (_in_ring/_ring_sizes) and reaction '
         'containers are covered by the search only']
     ck.extra['rule'] = ('correspondence: every sequence over a 12-operation alphabet up to length 3 (thorough: 4) on 3 seed molecules, plus a pool of 38 '
-                        'malformed / remaining operations at depth 1-2 (quick: paired with the alphabet; thorough: with each other too) and sampled at depth 3 (300 / 3000 per seed), plus random state-aware sequences (about 12% malformed '
+                        'malformed / remaining operations at depth 1-2 (quick: paired with the alphabet; thorough: with each other too) and sampled at depth 3 (300 / 1500 per seed), plus random state-aware sequences (about 12% malformed '
                         'arguments) on Kekule forms of corpus molecules compared after every step; every case is a distinct history and is '
                         'non-trivial (it compares atoms, bonds, cached keys, _changed, _backup, staleness, identity partition). search: the same runs, '
                         'compared with a molecule rebuilt from scratch after every history (random: after every step), plus stereo seeds and reactions')
@@ -1410,7 +1410,7 @@ def run(ck):
     ok1, failing1, log1 = corr_run(cr, 'c13')
     t3 = time.time()
     cr2 = Corr(ck)
-    explore_random(cr2, 50 if quick else 1500, 12 if quick else 25)
+    explore_random(cr2, 50 if quick else 800, 12 if quick else 25)
     t4 = time.time()
     ok2, failing2, log2 = corr_run(cr2, 'c13r', shard=7 if quick else 25)
     t5 = time.time()
